@@ -354,6 +354,7 @@ def replay(eng, path):
     universe.start_ref_server()          # a fresh interpreter is pristine
     want = doc.get('key')
     other = None
+    known = {f.get('key'): f for f in load_known().get('findings', []) if f.get('property') == eng.PROP}
     # One attempt decides, except for behaviour that depends on object addresses (a cache keyed by
     # id(text)): there the allocator state of a cold interpreter differs from a warm one, so the
     # same file is executed up to three times in this process and the first reproduction counts.
@@ -364,6 +365,11 @@ def replay(eng, path):
             return 2
         for v in res['violations']:
             k = eng.finding_key({'violation': v, 'plan': doc['plan']})
+            if (want is None or k == want) and k in known:
+                # a listed finding: reproduced, reported as such
+                print('KNOWN-FINDING: property=%s %s' % (eng.PROP, known[k].get('what', k)))
+                print('  attempt=%d %s' % (attempt + 1, json.dumps(v)[:2000]))
+                return 0
             if want is None or k == want:
                 print('VIOLATION property=%s replay=%s' % (eng.PROP, path))
                 print('  attempt=%d %s' % (attempt + 1, json.dumps(v)[:2000]))
